@@ -150,6 +150,24 @@ CHECKS = {
    note="Trusted: TLC and the Bitwise/Json modules; Sfc64.tla as transcription of the documented generator (splitmix64 test vector checked by an ASSUME); the "
         "harness's logging of bit patterns; a 64-word search window per sampler call. Sampler formulas are not checked here (C16).",
    technique="TLC model checking of the seeding/cache design + TLC trace validation against an executable TLA+ sfc64"),
+ "C16": dict(level="model_checking", design="DESIGN.md §4 C16",
+   text="TLC exhaustively checks the discrete decision logic on spec/SamplersMC.tla (loaded-dice inversion incl. vectors summing to 1 +- 1e-3, Vose alias "
+        "construction with all pairing orders, alias followed by a position, dice, Bernoulli trial processes incl. p = 1) with refuted negative controls. Every "
+        "sampler x 124 admissible parameter sets (boundaries included) is run on the real library; TLC judges the recorded support classes, alias tables and "
+        "bin / empirical-distribution-function frequencies against spec/Samplers.tla (spec/SamplersTrace.tla). The distribution-fit half is statistical "
+        "conformance (7 sigma + Bernstein term, false-alarm probability < 5e-11 per tested count), not proof.",
+   note="Trusted: TLC, the harness's classification and counting, the generated quantile table spec/SamplersFit.tla (independent double-precision numerics), "
+        "the conversion of rational parameters to doubles. Distortions below 7 sigma at the tier's sample size, or inside the outermost 2^-15 tail bin, are not detected.",
+   technique="TLA+ model checking of sampler decision logic + TLC-judged support/frequency trace validation"),
+ "C17": dict(level="model_checking", design="DESIGN.md §4 C17",
+   text="A summary's abstract state is the exact power-sum tuple of its samples (spec/SummaryStats.tla over exact bignum rationals, spec/C17Big.tla); TLC proves "
+        "on spec/Summary.tla, for all add/merge/reset histories over small alphabets, that the closed forms equal the definitional statistics, that the library's "
+        "update and merge formulas (transcribed over exact rationals) refine the tuple, and the weighted laws. Every explored transition, under affine and unit "
+        "frames, plus seeded long and offset histories, is replayed on the real summaries; TLC decides each reported accessor value with exact integer arithmetic "
+        "(spec/SummaryTrace.tla).",
+   note="Trusted: TLC; the harness's exact ldexp fixed-point logging; statistic conventions as documented in the headers; the tolerance bound "
+        "n^2 (1 + max|x|/spread) 2^-40. Rounding-error growth beyond the tolerance and |x|^4 outside the double range are not decided.",
+   technique="TLA+ model checking of summary algebra/design (TLC) + exact-arithmetic TLC trace validation"),
 }
 NA = {}
 
